@@ -205,6 +205,23 @@ class FunctionVC(Executor):
                 rty = decl.get("returns", ANY)
                 yield s, (BVal(t == smt.TRUE) if rty == BOOL else IVal(smt.ival(t)) if rty == INT else Val(t, rty))
                 return
+            if decl.get("pure_content") == "dict" and not kwargs:
+                # declared total; returns a FRESH dict whose CONTENT is a deterministic function of the arguments
+                # (assumed contract): membership / value / size are uninterpreted functions of the argument values
+                kty, vty = decl.get("returns", DICT(STR, ANY))[1:3]
+                r = alloc_dict(s, kty, vty)
+                base = "C_" + name.replace(".", "_")
+                a = [to_v(x, s) for x in args]
+                sorts = [smt.V] * len(a)
+                dh = z3.Function(base + "_has", *sorts, z3.ArraySort(smt.V, z3.BoolSort()))(*a)
+                dv = z3.Function(base + "_val", *sorts, z3.ArraySort(smt.V, smt.V))(*a)
+                dn = z3.Function(base + "_len", *sorts, z3.IntSort())(*a)
+                h = s.heap
+                s.heap = h.with_comp("dh", z3.Store(h.c["dh"], r.t, dh)).with_comp("dv", z3.Store(h.c["dv"], r.t, dv)).with_comp("dn", z3.Store(h.c["dn"], r.t, dn))
+                s.assume(*smt.heap_wellformed_ref(s.heap, r.t, "d"))
+                s.trace.append(("call", name, {"args": args, "kwargs": kwargs}))
+                yield s, r
+                return
             s.trace.append(("call", name, {"args": args, "kwargs": kwargs}))
             yield from calls.opaque_result(self, name, s, ANY)
             return
